@@ -3,6 +3,7 @@
     conforming writer produces.  The harness decodes every file the implementation writes with the extracted
     reader and compares with the API's report. *)
 From Bbolt Require Import Base Consts Spec Fnv Layout LayoutEnc LayoutProofs LayoutPageProofs Node NodeProofs.
+From Bbolt Require LayoutBucketProofs.
 
 (** little-endian integers of any width round-trip at any file position *)
 Theorem C12_integer_roundtrip : forall n v pre post, v < 256 ^ N.of_nat n ->
@@ -111,3 +112,37 @@ Theorem C12_roundtrip_needs_the_size_bound :
     read (rd_of ([] ++ bytes ++ [])) (N.of_nat (length (@nil N))) <> Ok {| n_leaf := n_leaf n; n_unbal := false; n_inodes := n_inodes n |}.
 Proof. exact roundtrip_needs_size_bound. Qed.
 Print Assumptions C12_roundtrip_needs_the_size_bound.
+
+(** ---- nested buckets: the independent reader decodes what the code's writer stores for them ---- *)
+Module Buckets.
+Import LayoutBucketProofs.
+
+(** a leaf written by node.write whose elements carry any even flags reads back as plain key/value pairs *)
+Theorem C12_leaf_with_flags_roundtrip : forall ps f n pg ov img pre post limit inline lo hi,
+  n_leaf n = true ->
+  Forall (fun x => i_flags x < 2^32 /\ N.odd (i_flags x) = false) (n_inodes n) ->
+  pg < 2^64 -> ov < 2^32 -> size n < 2^32 ->
+  write n pg ov = Ok img ->
+  N.of_nat (length pre) + size n <= limit ->
+  dec_page (rd_of (pre ++ img ++ post)) ps (S f) (N.of_nat (length pre)) limit inline lo hi =
+  Some {| r_ents := map (fun x => (i_key x, Val (i_val x))) (n_inodes n);
+          r_pages := if inline then [] else [(pg, ov, leaf_page_flag)];
+          r_order := key_order lo hi (keys_of (n_inodes n)); r_bounds := true |}.
+Proof. exact leaf_flags_roundtrip. Qed.
+Print Assumptions C12_leaf_with_flags_roundtrip.
+
+(** an INLINE bucket: the value Bucket.write stores (16-byte header + the root leaf as a page with id 0) inside a leaf written by
+    node.write is decoded by the independent reader to the nested bucket with its sequence and its keys, and occupies no page *)
+Theorem C12_inline_bucket_roundtrip : forall ps f n pg ov img pre post limit inline lo hi l1 x l2 seq m,
+  n_leaf n = true -> n_inodes n = l1 ++ [x] ++ l2 -> plain_flags l1 -> plain_flags l2 ->
+  i_flags x < 2^32 -> N.odd (i_flags x) = true ->
+  seq < 2^64 -> n_leaf m = true -> plain_flags (n_inodes m) -> bucket_write seq m = Ok (i_val x) ->
+  pg < 2^64 -> ov < 2^32 -> size n < 2^32 -> write n pg ov = Ok img -> N.of_nat (length pre) + size n <= limit ->
+  dec_page (rd_of (pre ++ img ++ post)) ps (S (S f)) (N.of_nat (length pre)) limit inline lo hi =
+  Some {| r_ents := plain_ents l1 ++ [(i_key x, Sub seq (plain_ents (n_inodes m)))] ++ plain_ents l2;
+          r_pages := if inline then [] else [(pg, ov, leaf_page_flag)];
+          r_order := key_order lo hi (keys_of (n_inodes n)) && key_order None None (keys_of (n_inodes m));
+          r_bounds := true |}.
+Proof. exact inline_bucket_roundtrip. Qed.
+Print Assumptions C12_inline_bucket_roundtrip.
+End Buckets.
